@@ -145,6 +145,18 @@ CLAIMED['C03'] = dict(
     note='Trusted: RI of C06 as pre-state, contracts of TypeAggregator::{aggregate, imports, canonical_import_name} (C09), `self.import` as an event, M2S, z3. Counterexamples are rule-level (over the MIR); listing witnesses are replayed through the public API.',
     design='DESIGN.md section 9.2 / C03')
 
+CLAIMED['C02'] = dict(
+    technique='symbolic execution of rustc MIR (M2S) of the emission functions of CompositionGraphEncoder from arbitrary graph states satisfying the C06 representation invariant and an arbitrary node->index table; every wasm_encoder call is an event; z3 decides agreement of the events with the graph',
+    text='Emission contracts, bounded (3/4 node slots, 2/3 edge slots, 2 packages, 2 world imports, 2 instance exports): (A) two instantiations in a row: one embedded/imported component per '
+         'package *id* (component_raw with that package\'s bytes, or an import of its component type under its unlocked-dep name), each instantiation uses the component of its own package, its '
+         'arguments are exactly the argument edges (import name of the argument index, kind and encoded index of the source node) followed by the recorded implicit arguments; (B) alias: '
+         'InstanceExport{instance = encoded index of the alias source, name and kind = the designated export}; (C) encode_names: every named node once, under its encoded index and name, in '
+         'the name map handed to the section of its own kind; (D) encode: import nodes go to encode_imports, every other node is emitted once in order by the function of its kind, every '
+         'non-definition export is bound to (name, kind, encoded index) of its node in export order. NOT claimed: the bytes wasm_encoder produces for these calls, TypeEncoder, `definition`, '
+         '`import`, `toposort`, byte-identity of embedded packages beyond the identity of the slice passed.',
+    note='Trusted: RI of C06 (plus: argument / alias edge indices are within the import / export lists they were taken from), event models of ComponentBuilder / NameMap / ComponentNameSection, M2S, z3. Counterexamples are rule-level; two fixed scripts (two versions of one package; a named core module) are inspected natively when the matching obligation fails.',
+    design='DESIGN.md section 9.2 / C02')
+
 NOT_APPLICABLE = {
  'C01': 'validity is defined by an external 60 kLoC validator over whole-pipeline output; neither it nor the encoder can be executed symbolically here (DESIGN.md section 4)',
  'C02': 'emission functions interleave graph reads with wasm_encoder builder calls and TypeEncoder recursion; deciding the encoded wiring needs a validated model of the builder index spaces that was not built; graph-side bookkeeping is covered by C06, order by C16 (DESIGN.md 9.6)',
